@@ -80,12 +80,16 @@ func (scp *Isolated) Stop() {
 
 // Err return cumulative error if the scope context contains any error
 func (scp *Isolated) Err() error {
-	return goaterr.ToError(scp.errors)
+	return goaterr.ToError(scp.Errors())
 }
 
 // Errors return scope errors
 func (scp *Isolated) Errors() []error {
-	return scp.errors
+	scp.errorsMU.Lock()
+	defer scp.errorsMU.Unlock()
+	errs := make([]error, len(scp.errors))
+	copy(errs, scp.errors)
+	return errs
 }
 
 // AppendErrors append many errors to scope (skip nil errors)
